@@ -193,6 +193,19 @@ def partition(repo: Repo) -> RuleRun:
         s = _run(Evaluator(repo=repo, module=cls.module), repo.find_method(cls, "shell"), [this])
         g = _run(Evaluator(repo=repo, module=cls.module), repo.find_method(cls, "grid"), [this])
         r.check(c == ops[:n_cores] and s == ops[n_cores:] and g == [c, s], cls, f"{cls.name}: {n_cores} core + {len(ops) - n_cores} shell", f"{cls.name}: core={c}, shell={s}, grid={g}", key=cls.name)
+    # one eighth = 1 core loft followed by 3 shell lofts (eighth_sphere_lofts), so n_cores counts eighths
+    esl = repo.func("construct.shapes.sphere.eighth_sphere_lofts")
+    appended = [ast.unparse(n.value.args[0]) for n in walk_shallow(esl.node) if isinstance(n, ast.Expr) and isinstance(n.value, ast.Call) and attr_chain(n.value.func) == "lofts.append"]
+    extended = [n for n in walk_shallow(esl.node) if isinstance(n, ast.AugAssign) and ast.unparse(n.target) == "lofts" and isinstance(n.value, ast.List)]
+    r.require(appended == ["core"] and len(extended) == 1 and len(extended[0].value.elts) == 3, "eighth_sphere_lofts: 'lofts.append(core); lofts += [3 shells]' not found")
+    e8 = repo.cls("construct.shapes.sphere.EighthSphere")
+    hs = repo.cls("construct.shapes.sphere.Hemisphere")
+    n8 = ast.literal_eval(repo.class_var(e8, "n_cores")[0])
+    nh = ast.literal_eval(repo.class_var(hs, "n_cores")[0])
+    r.check(n8 == 1, e8, "EighthSphere: 1 core loft", f"EighthSphere.n_cores = {n8}, but eighth_sphere_lofts returns exactly one core loft first: core/shell would not split the lofts into inner and outer blocks", key="EighthSphere.n_cores")
+    loops = [n for n in walk_shallow(repo.func("construct.shapes.sphere.Hemisphere.__init__").node) if isinstance(n, ast.For)]
+    ok_h = len(loops) == 1 and ast.unparse(loops[0].iter) == "range(1, self.n_cores + 1)" and "rotated_core.append(rotated_eighth[0])" in ast.unparse(loops[0]) and "rotated_shell += rotated_eighth[1:]" in ast.unparse(loops[0])
+    r.check(ok_h and nh == 4, hs, "Hemisphere: one core per eighth, 4 eighths", f"Hemisphere (n_cores = {nh}) does not collect element 0 of every eighth as core and the rest as shell", key="Hemisphere.n_cores")
     # Hemisphere builds lofts as cores first, then shells (3 per eighth)
     hinit = repo.func("construct.shapes.sphere.Hemisphere.__init__")
     final = [n for n in walk_shallow(hinit.node) if isinstance(n, ast.Assign) and attr_chain(n.targets[0]) == "self.lofts"]
@@ -221,8 +234,10 @@ partition.rule_id = "C19.PARTITION"
 
 
 def merged_roles(repo: Repo) -> RuleRun:
-    r = RuleRun(PROP, "C19.MERGED-ROLES", floor=4, what="merged sketches: core tier = core faces of the source quarters, shell tier = their shell faces")
-    r.require(sketches.merge_appends_in_order(repo), "MappedSketch.merge no longer appends the other sketch's faces after its own in order")
+    r = RuleRun(PROP, "C19.MERGED-ROLES", floor=1, what="merged sketches: core tier = core faces of the source quarters, shell tier = their shell faces")
+    merge = repo.func("construct.flat.sketches.mapped.MappedSketch.merge")
+    if not r.check(sketches.merge_appends_in_order(repo), merge, "merge keeps its own faces first and appends the other sketch's in order", "MappedSketch.merge no longer keeps the sketch's own faces first and appends the other sketch's faces in order: grid tiers and chop indexes of every merged sketch address other faces", merge.node, key="merge-order"):
+        return r
     for cls in sketches.merged_sketch_classes(repo):
         roles = sketches.face_roles(repo, cls)
         faces = [Sym(f"f{i}") for i in range(len(roles))]
